@@ -16,13 +16,14 @@
    Hypotheses: |centre latitude| <= 75, 0 <= inner <= outer <= 10000 m, 0 < amax - amin < 360,
    k >= 1 segments with spacing (amax - amin) / k <= 10 degrees (the default k = max(ceil(span/10), 10)
    meets this: C09_wedge_default_k).
-   Not covered here: the 1e-7 degree rounding of each sample (<= 5.6 mm per bound, SphereP3.dest_rounding
-   as in BoundsCurveP6), the longitude wrap at +-180, float evaluation.
+   The `_rounded` theorems are about what the code returns: every sample rounded to 7 decimals by
+   inverse_haversine_radians (dest_rad_rounded; each bound moves by at most 5.6 mm).
+   Not covered here: the longitude wrap at +-180 by the Coordinate constructor, float evaluation.
 
    Axioms (Print Assumptions, every theorem below): the standard real-number axioms only -
    ClassicalDedekindReals.sig_not_dec, ClassicalDedekindReals.sig_forall_dec,
    FunctionalExtensionality.functional_extensionality_dep, Classical_Prop.classic. *)
-From GV Require Import Prelude SphereM CurveM BoundsCurveM BoundsCurveP4 BoundsWedgeM BoundsCurveP7 BoundsCurveP8 BoundsCurveP9.
+From GV Require Import Prelude SphereM CurveM BoundsCurveM BoundsCurveP4 BoundsCurveP6 BoundsWedgeM BoundsCurveP7 BoundsCurveP8 BoundsCurveP9 BoundsCurveP10.
 From Coq Require Import Reals.
 Open Scope R_scope.
 
@@ -142,6 +143,46 @@ Theorem C09_ring_bounds_unrounded_branch : forall s,
   (r_amax s - r_amin s < 360 -> ring_bounds_unrounded s = wedge_bounds_default s).
 Proof. exact ring_bounds_unrounded_spec. Qed.
 Print Assumptions C09_ring_bounds_unrounded_branch.
+
+(* ---- the same for what the code RETURNS: every sample rounded to 7 decimals (dest_rad_rounded); the rounding moves
+   each bound by at most 5.6 mm either way ---- *)
+Theorem C09_wedge_bounds_rounding : forall s k,
+  ring_is_full s = false ->
+  let b := wedge_bounds s k in let br := wedge_bounds_rounded s k in
+  Rabs (rad (rb_minlon br) - rad (rb_minlon b)) <= rad round_step /\
+  Rabs (rad (rb_minlat br) - rad (rb_minlat b)) <= rad round_step /\
+  Rabs (rad (rb_maxlon br) - rad (rb_maxlon b)) <= rad round_step /\
+  Rabs (rad (rb_maxlat br) - rad (rb_maxlat b)) <= rad round_step.
+Proof. exact wedge_bounds_rounding. Qed.
+Print Assumptions C09_wedge_bounds_rounding.
+
+Theorem C09_wedge_bounds_rounded_match_outline_extents : forall s k,
+  Rabs (lat (r_center s)) <= 75 -> 0 <= r_inner s <= r_outer s -> r_outer s <= 10000 ->
+  0 < r_amax s - r_amin s < 360 -> (1 <= k)%nat -> (r_amax s - r_amin s) / INR k <= 10 ->
+  forall N S E W,
+  is_lub (wedge_outline_lats s) N -> is_glb (wedge_outline_lats s) S ->
+  is_lub (wedge_outline_lons s) E -> is_glb (wedge_outline_lons s) W ->
+  let b := wedge_bounds_rounded s k in
+  - (56 / 10000) <= Rearth * (N - rad (rb_maxlat b)) <= r_outer s / 100 + 56 / 10000 /\
+  - (56 / 10000) <= Rearth * (rad (rb_minlat b) - S) <= r_outer s / 100 + 56 / 10000 /\
+  - (56 / 10000) <= Rearth * cos (rad (lat (r_center s))) * (E - rad (rb_maxlon b)) <= r_outer s / 100 + 56 / 10000 /\
+  - (56 / 10000) <= Rearth * cos (rad (lat (r_center s))) * (rad (rb_minlon b) - W) <= r_outer s / 100 + 56 / 10000.
+Proof. exact wedge_bounds_rounded_match_outline_extents. Qed.
+Print Assumptions C09_wedge_bounds_rounded_match_outline_extents.
+
+(* GeoRing.bounds as returned (both branches: ring_bounds_rounded), on its wedge branch with the default k *)
+Theorem C09_ring_bounds_rounded_wedge_match_outline_extents : forall s N S E W,
+  Rabs (lat (r_center s)) <= 75 -> 0 <= r_inner s <= r_outer s -> r_outer s <= 10000 ->
+  0 < r_amax s - r_amin s < 360 ->
+  is_lub (wedge_outline_lats s) N -> is_glb (wedge_outline_lats s) S ->
+  is_lub (wedge_outline_lons s) E -> is_glb (wedge_outline_lons s) W ->
+  let b := ring_bounds_rounded s in
+  - (56 / 10000) <= Rearth * (N - rad (rb_maxlat b)) <= r_outer s / 100 + 56 / 10000 /\
+  - (56 / 10000) <= Rearth * (rad (rb_minlat b) - S) <= r_outer s / 100 + 56 / 10000 /\
+  - (56 / 10000) <= Rearth * cos (rad (lat (r_center s))) * (E - rad (rb_maxlon b)) <= r_outer s / 100 + 56 / 10000 /\
+  - (56 / 10000) <= Rearth * cos (rad (lat (r_center s))) * (rad (rb_minlon b) - W) <= r_outer s / 100 + 56 / 10000.
+Proof. exact ring_bounds_rounded_wedge_match_outline_extents. Qed.
+Print Assumptions C09_ring_bounds_rounded_wedge_match_outline_extents.
 
 (* ---- the extents exist (completeness of R) ---- *)
 Theorem C09_wedge_extents_exist : forall s k,
